@@ -529,7 +529,7 @@ pub fn run_connection(conn: &mut Conn<'_, '_>, steps_left: &mut u32) -> ConnEnd 
                     let c = &w.conns[w.cur];
                     c.max_packet_size.is_some_and(|m| m < 6) && (!c.owed_acks.is_empty() || !c.carry_acks.is_empty())
                 });
-                let ok = matches!(r, Res::PacketTooLarge) && (matches!(step, Step::Poll | Step::Recv | Step::Drive) || ack_pending) || matches!(step, Step::Disconnect);
+                let ok = matches!(r, Res::PacketTooLarge) && (matches!(step, Step::Poll | Step::Recv | Step::Drive | Step::Invalid) || ack_pending) || matches!(step, Step::Disconnect);
                 if !ok {
                     with(|w| {
                         w.violate(
